@@ -206,3 +206,45 @@ Definition cond_inf (n : nat) (B Binv : mat) : Q := norm_inf_mat n B * norm_inf_
 Definition check_close (x y : vec) (eps : Q) : bool :=
   Nat.eqb (length x) (length y) &&
   Qle_bool (norm_inf (vsub x y)) (eps * (norm_inf x + norm_inf y)).
+
+(* ---------- the update protocol of SLUFactor (src/soplex/slufactor.hpp: load, solveRight4update / solve2right4update /
+   solve3right4update, change) ----------
+   [usetup] says that an update vector has been prepared; the model also remembers (ghost) for which matrix and which column.
+     load(B')                 : matrix := B', nothing prepared
+     ...4update(col)          : prepares B^-1 col for the CURRENT matrix
+     change(k, v, eta)        : eta = nullptr and something prepared -> the prepared vector is used AS B^-1 v;
+                                otherwise B^-1 v is taken from eta / computed by the call;  matrix := B with column k
+                                replaced; nothing prepared afterwards *)
+Inductive p_op : Type :=
+| PLoad (B : mat)
+| PPrep (v : vec)
+| PSolve                        (* any plain solve: no effect on the protocol state *)
+| PChange (k : nat) (v : vec) (explicit_eta : bool).
+
+Record pstate := { p_mat : mat; p_prep : option (mat * vec) }.
+
+Definition usetup (s : pstate) : bool := match p_prep s with Some _ => true | None => false end.
+
+Definition p_step (s : pstate) (o : p_op) : pstate :=
+  match o with
+  | PLoad B' => {| p_mat := B'; p_prep := None |}
+  | PPrep v => {| p_mat := p_mat s; p_prep := Some (p_mat s, v) |}
+  | PSolve => s
+  | PChange k v _ => {| p_mat := replace_col (p_mat s) k v; p_prep := None |}
+  end.
+
+Definition p_run (s : pstate) (ops : list p_op) : pstate := fold_left p_step ops s.
+
+(* what a change uses as B^-1 v when it relies on the prepared vector: the solution prepared for (matrix, column) *)
+Definition change_uses (s : pstate) (o : p_op) : option (mat * vec) :=
+  match o with
+  | PChange _ _ false => p_prep s
+  | _ => None
+  end.
+
+(* the variant in which load() forgets to drop the prepared vector (for the refutation) *)
+Definition p_step_stale (s : pstate) (o : p_op) : pstate :=
+  match o with
+  | PLoad B' => {| p_mat := B'; p_prep := p_prep s |}
+  | _ => p_step s o
+  end.
